@@ -214,10 +214,4 @@ def run(chk):
     vts = tables.load_all(ix.root)
     tablerules.c04_cardinalities(chk, vts)
 
-    # ---- N informational contradiction
-    for n_ in own_nodes(ck.node):
-        if isinstance(n_, ast.If) and norm(n_.test) == 'ref is None':
-            chk.info('C04-N: _check_known_element tests `ref is None`, leaves it None on the ChildNotFound path and then '
-                     'evaluates ref[0] (contradiction pattern; no input reaching it is known)')
-            break
     chk.assume('the verdict of validate() as a function of the message is a run-time result and is not decided')
